@@ -3,7 +3,29 @@ claim("C02","muxsim","exploration",
  "Seeded search over schedules/configurations of two real endpoints; byte-stream model per stream and direction checked at every read and at EOF, plus wire-level content check with an independent codec. Sampling, not proof.",
  "Trusts the in-memory link to model tokio-tungstenite's contract (reliable FIFO per direction) and the seeded executor's poll-atomic granularity.",
  T_DST, "DESIGN.md §6 C02")
-for p in ["C01","C03","C04","C05","C06","C07","C08","C10","C11","C12","C13","C14","C15","C16","C18","C19"]:
+NOTE_E1 = "Trusts the in-memory link to model tokio-tungstenite's observable contract (reliable FIFO per direction, auto-Pong, Close semantics) and the seeded executor's poll-atomic granularity; flow ids are read off the wire, payload content is a function of (stream, direction, offset)."
+claim("C03","muxsim","exploration",
+ "Black-box credit accountant over the wire monitor's history (independent codec): outstanding Push <= advertised window at every Push, one non-empty write = one Push, acknowledgements never ahead of consumption, no Reset of a live established flow; sampled over schedules, option pairs and racing-ack workloads.",
+ NOTE_E1, T_DST, "DESIGN.md §6 C03")
+claim("C04","muxsim","exploration",
+ "Liveness decided at exact quiescence of the simulated system (no step bound): all 36x36 (rwnd, threshold) option pairs enumerated by run index with fresh workloads/schedules, plus a starved-stream family; sampling over schedules.",
+ NOTE_E1, T_DST + "; liveness = pending-operation ledger at exact quiescence", "DESIGN.md §6 C04")
+claim("C05","muxsim","exploration",
+ "Close/EOF histories against a sequential model: every end-of-stream needs an earlier terminating event of the peer, completeness after clean shutdown, BrokenPipe after shutdown / consumed Reset, no Push after Finish on the wire.",
+ NOTE_E1, T_DST, "DESIGN.md §6 C05")
+claim("C06","muxsim","exploration",
+ "Open/transfer/close cycles with every close style and forced re-use of the same flow id after both applications let go; prefix/EOF rules for the aborted peer, fresh byte/credit models for the re-opened stream, black-box slot-leak probe.",
+ NOTE_E1, T_DST, "DESIGN.md §6 C06")
+claim("C07","muxsim","exploration",
+ "Crossing opens with scripted colliding flow-id generators on both sides; request<->accept matching on exact host bytes and port, wire discipline of Connect ids and windows, behavioural initial-credit check, retry bound.",
+ NOTE_E1, T_DST, "DESIGN.md §6 C07")
+claim("C11","muxsim","exploration",
+ "Datagram bursts over the full field domain against an exact bounded-queue model evaluated on the global event order, with checked stream traffic in parallel.",
+ NOTE_E1, T_DST, "DESIGN.md §6 C11")
+claim("C15","muxsim","exploration",
+ "Concurrent bind requests with seeded answer orders/kinds matched to the responder's view through unique hosts; second family forces flow-id re-use between binds and streams.",
+ NOTE_E1, T_DST, "DESIGN.md §6 C15")
+for p in ["C01","C08","C10","C12","C13","C14","C16","C18","C19"]:
     na(p, "check not built yet in this session (planned, see DESIGN.md §6); not claimed until its command exists")
 na("C09","pure codec function of one complete buffer (quantifier: inputs only): no schedule, clock, fault or interleaving for a simulator to decide; see DESIGN.md §6 C09")
 na("C17","outcome is a function of the TLS configuration cell alone; handshake randomness has no seam, so one seed cannot be one repeatable execution; see DESIGN.md §6 C17")
